@@ -584,6 +584,10 @@ class StmtMixin:
             body_st.assume(z3.And(kk >= 0, i == lo + kk * step, i < hi))
         self.assume_invs(body_st, spec)
         self.cover(body_st, f"loop-body#{lid}", line)
+        for (label, expr) in spec.body_hints:
+            g_ = self.spec_bool(expr, body_st)
+            self.oblig(body_st, f"hint#{lid}", g_, line, label=label, cls="H")
+            body_st.assume(g_)
         exits = []
         save = self.loop_counter
         if self.inline_depth == 0:
@@ -666,6 +670,108 @@ class StmtMixin:
         after.env[kname] = VInt(seq.n)
         after.assume(seq.n >= 0)
         self.assume_invs(after, spec)
+        return [(after, Outcome(NORMAL))] + exits
+
+    def for_generator(self, s, st, it, lid, first_nested, spec):
+        """Consumer of a generator under a yield contract (read_plan): symbolic block index k in [0, K).
+
+        Per call instance: K >= 1 blocks, offsets boff(k), lengths bn(k) with the clauses proved for the
+        generator (C01): 0 <= bn(k) <= G, boff(0) == 0, boff(k+1) == boff(k) + bn(k) - S, bn(k) >= S for k >= 1,
+        0 <= boff(k), boff(k) + bn(k) <= N, boff(K-1) + bn(K-1) == N; helper clauses (H): boff(k) == k*(G-S),
+        K > 1 implies G == gulp.  The block is a view of the ghost sample array XS at (start+boff(k))*nchans
+        (read-only consumers) or a fresh copy of it (consumers that write the block)."""
+        from .iomodel import XS_OBJ, xs_object
+        c, g, gself = it.ref
+        line = s.lineno
+        if spec is None:
+            spec = LoopSpec()
+        G, S, N = (self.to_int(g[k]) for k in ("G", "S", "N"))
+        start, nchans, gulp = (self.to_int(g[k]) for k in ("start", "nchans", "gulp"))
+        inst = self.call_counter.get("#gen", 0)
+        self.call_counter["#gen"] = inst + 1
+        K = smt.fresh("bK")
+        boff = z3.Function(f"boff{inst}", INT, INT)
+        bn = z3.Function(f"bn{inst}", INT, INT)
+        kname = f"_k{lid}"
+        self.assume_tag("GEN:read_plan yield contract (C01)")
+        raised = []
+        # rejected before anything is yielded
+        rej = st.fork()
+        rej.assume(S >= G)
+        if self.feasible(rej):
+            raised.append((rej, Outcome("raise", exc="ValueError", line=line)))
+        st.assume(S < G)
+        j = smt.fresh("kb")
+        facts = [K >= 1, boff(0) == 0, boff(K - 1) + bn(K - 1) == N,
+                 z3.ForAll([j], z3.Implies(z3.And(0 <= j, j < K),
+                                           z3.And(bn(j) >= 0, bn(j) <= G, boff(j) >= 0, boff(j) + bn(j) <= N,
+                                                  z3.Implies(j >= 1, bn(j) >= S),
+                                                  boff(j) == smt.som(j * (G - S)),
+                                                  z3.Implies(j + 1 < K, boff(j + 1) == boff(j) + bn(j) - S))),
+                           patterns=[bn(j), boff(j)]),
+                 z3.Implies(K > 1, G == gulp)]
+        for f in facts:
+            st.assume(f)
+        xs_object(self, st)
+        st.ghost["gen"] = dict(K=K, boff=boff, bn=bn)
+        self.gen_specs = {"bK": K, "boff": boff, "bn": bn}
+        names, objs, fields = self.loop_modifies(s.body, st)
+        for n_ in ast.walk(s.target):
+            if isinstance(n_, ast.Name):
+                names.discard(n_.id)
+        st.env[kname] = VInt(0)
+        self.check_invs(st, spec, "inv-init", lid, "gen", line)
+        body_st = st.fork()
+        self.havoc_loop(body_st, names, objs, fields, f"L{lid}")
+        k = smt.fresh(kname)
+        body_st.env[kname] = VInt(k)
+        body_st.assume(z3.And(0 <= k, k < K))
+        # instances of the block clauses at k and k+1 (the quantified form stays available)
+        for kk in (k, k + 1):
+            body_st.assume(z3.Implies(z3.And(0 <= kk, kk < K),
+                                      z3.And(bn(kk) >= 0, bn(kk) <= G, boff(kk) >= 0, boff(kk) + bn(kk) <= N,
+                                             z3.Implies(kk >= 1, bn(kk) >= S), boff(kk) == smt.som(kk * (G - S)))))
+        body_st.assume(z3.Implies(k + 1 < K, boff(k + 1) == boff(k) + bn(k) - S))
+        self.assume_invs(body_st, spec)
+        self.cover(body_st, f"loop-body#{lid}", line)
+        base = smt.som((start + boff(k)) * nchans)
+        blen = smt.som(bn(k) * nchans)
+        if getattr(self.contract, "gen_copy", False):
+            jj = z3.Int("j!blk")
+            bobj = self.new_obj(body_st, "real", None, "block",
+                                contents=z3.Lambda([jj], z3.Select(body_st.heap[XS_OBJ], base + jj)))
+            data = VArr(bobj, z3.IntVal(0), z3.IntVal(1), blen)
+        else:
+            data = VArr(XS_OBJ, base, z3.IntVal(1), blen)
+        xs_before = body_st.heap[XS_OBJ]
+        self.bind_target(s.target, VTuple([VInt(bn(k)), VInt(k), data]), body_st, line)
+        for (label, expr) in spec.body_hints:
+            g_ = self.spec_bool(expr, body_st)
+            self.oblig(body_st, f"hint#{lid}", g_, line, label=label, cls="H")
+            body_st.assume(g_)
+        exits = list(raised)
+        save = self.loop_counter
+        if self.inline_depth == 0:
+            self.loop_counter = first_nested
+        for s2, oc in self.exec_block(s.body, body_st):
+            if s2.heap[XS_OBJ] is not xs_before:
+                self.oblig(s2, f"frame@{line}", s2.heap[XS_OBJ] == xs_before, line, label="consumer writes the read buffer")
+            if oc.kind in (NORMAL, "continue"):
+                s2.env[kname] = VInt(k + 1)
+                self.check_invs(s2, spec, "inv-keep", lid, "gen", line)
+            elif oc.kind == "break":
+                exits.append((s2, Outcome(NORMAL)))
+            else:
+                exits.append((s2, oc))
+        if self.inline_depth == 0:
+            self.loop_counter = max(save, self.loop_counter)
+        after = st
+        self.havoc_loop(after, names, objs, fields, f"L{lid}x")
+        after.env[kname] = VInt(K)
+        self.assume_invs(after, spec)
+        for n_ in ast.walk(s.target):
+            if isinstance(n_, ast.Name):
+                after.env.pop(n_.id, None)
         return [(after, Outcome(NORMAL))] + exits
 
     def ex_While(self, s, st):
